@@ -141,4 +141,78 @@ theorem C12_fallible_flag :
       | .map false => a.names.all (fun n => !fallibleNames.contains n)
       | _ => true) = true := by decide
 
+/-! ### member level: writing a shortcut out does not change the instruction a member lookup selects -/
+
+def withApplM (a : MemberAttr) (A : Appl) : MemberAttr := { a with appl := A }
+
+theorem filter_parts_attr (a : MemberAttr) (parts : List Appl) (k : Kind) (f : Bool) :
+    (((parts.map (withApplM a)).filter fun x => x.fallible == f && x.appl.get k).map (·.attr))
+      = (parts.filter fun A => a.fallible == f && A.get k).map fun _ => a.attr := by
+  induction parts with
+  | nil => rfl
+  | cons A rest ih =>
+    simp only [List.map_cons, List.filter_cons, withApplM]
+    by_cases h : (a.fallible == f && A.get k) = true
+    · simp only [h, if_true, List.map_cons]
+      rw [← ih]
+    · have h' : (a.fallible == f && A.get k) = false := by simpa using h
+      simp only [h', Bool.false_eq_true, if_false]
+      exact ih
+
+/-- the candidates of one (kind, fallibility), as instruction cores in written order, are the same for the shortcut and
+    for its written-out form -/
+theorem member_candidates_eq (pre post : List MemberAttr) (a : MemberAttr) (parts : List Appl) (k : Kind) (f : Bool)
+    (hpart : (parts.filter (·.get k)).length = if a.appl.get k then 1 else 0) :
+    ((pre ++ parts.map (withApplM a) ++ post).filter (fun x => x.fallible == f && x.appl.get k)).map (·.attr)
+      = ((pre ++ [a] ++ post).filter (fun x => x.fallible == f && x.appl.get k)).map (·.attr) := by
+  simp only [List.filter_append, List.map_append]
+  congr 2
+  rw [filter_parts_attr]
+  by_cases hf : (a.fallible == f) = true
+  · simp only [hf, Bool.true_and]
+    by_cases hk : a.appl.get k = true
+    · simp only [hk, if_true] at hpart
+      rw [const_map_of_length _ _ 1 hpart]
+      simp [List.filter, hf, hk]
+    · simp only [hk] at hpart
+      simp at hpart
+      have : parts.filter (fun A => A.get k) = [] := by
+        apply List.eq_nil_of_length_eq_zero
+        simpa using hpart
+      simp [this, List.filter, hf, hk]
+  · have e : (a.fallible == f) = false := by simpa using hf
+    simp [e, List.filter]
+
+/-- a search whose test only looks at the instruction core finds the same core in two lists with equal cores -/
+theorem find_map_congr {α β : Type} (g : α → β) (q : β → Bool) : ∀ (l1 l2 : List α), l1.map g = l2.map g →
+    (l1.find? fun x => q (g x)).map g = (l2.find? fun x => q (g x)).map g
+  | [], [], _ => rfl
+  | [], _ :: _, h => by simp at h
+  | _ :: _, [], h => by simp at h
+  | x :: l1, y :: l2, h => by
+    simp only [List.map_cons, List.cons.injEq] at h
+    simp only [List.find?_cons, h.1]
+    cases q (g y) with
+    | true => simp [h.1]
+    | false => exact find_map_congr g q l1 l2 h.2
+
+theorem orElse_map_congr {α β : Type} (g : α → β) (x1 x2 y1 y2 : Option α)
+    (h1 : x1.map g = y1.map g) (h2 : x2.map g = y2.map g) : (x1 <|> x2).map g = (y1 <|> y2).map g := by
+  cases x1 <;> cases y1 <;> simp_all [HOrElse.hOrElse, OrElse.orElse, Option.orElse]
+
+/-- C12-2 (member level): with a shortcut member instruction replaced by its written-out basic instructions (same
+    parameters, kinds partitioned — `C12_table` shows the documented expansions do that), the "dedicated, else default"
+    lookup of every (kind, fallibility, counterpart) selects the same instruction core — hence `applicable_attr`, and with
+    it every generated line, is unchanged. Any number of other instructions before and after. -/
+theorem C12_member_level (m : MemberAttrs) (pre post : List MemberAttr) (a : MemberAttr) (parts : List Appl) (k : Kind) (f : Bool) (ty : TypePath)
+    (hpart : (parts.filter (·.get k)).length = if a.appl.get k then 1 else 0) :
+    ({ m with attrs := pre ++ parts.map (withApplM a) ++ post } : MemberAttrs).fieldAttrCore k f ty
+      = ({ m with attrs := pre ++ [a] ++ post } : MemberAttrs).fieldAttrCore k f ty := by
+  have hc := member_candidates_eq pre post a parts k f hpart
+  unfold MemberAttrs.fieldAttrCore MemberAttrs.fieldAttr MemberAttrs.iterForKind findDedicatedOrDefault
+  simp only [Bool.true_and]
+  have h1 := find_map_congr (fun x : MemberAttr => x.attr) (fun c : MemberAttrCore => isSomeEq c.containerTy ty) _ _ hc
+  have h2 := find_map_congr (fun x : MemberAttr => x.attr) (fun c : MemberAttrCore => c.containerTy.isNone) _ _ hc
+  exact orElse_map_congr _ _ _ _ _ h1 h2
+
 end O2o
